@@ -1073,6 +1073,10 @@ class Ev:
                         return True
                     elif isinstance(pr.cls, Cls) and w in (Exception, BaseException):
                         return True
+                    elif isinstance(pr.cls, Cls) and any(
+                            norm(b).split(".")[-1] == w.__name__ or w.__name__ in HIER.get(norm(b).split(".")[-1], ())
+                            for c in self.mro(pr.cls) for b in getattr(c.node, "bases", [])):
+                        return True         # a package exception class derived from a builtin one (class RefResolutionError(KeyError))
                 else:
                     ok_all = False
             if ok_all:
